@@ -367,11 +367,13 @@ type sut struct {
 	revT3    bool         // a touch of the existing empty account 0x03 was reverted
 	disarmed map[int]bool // accounts with a reverted touch that found the callback armed
 	mixed    map[int]bool // non-suicided tombstones that were dirty when Finalise/Commit(false) ran
+	baseIdx  int  // index of the commit this instance was opened at (-1: none)
+	pristine bool // opened at a committed root and no mutator has been called on it since (reverted or not)
 	lostCp   map[int]bool // (a Copy) accounts whose cached object in the original was disarmed and outside the dirty set (F2): dropped by Copy
 }
 
 func newSut(s *state.StateDB, base common.Hash) *sut {
-	return &sut{s: s, base: base, snapAt: map[int]int{}, snapView: map[int]string{}, revWr: map[int]bool{}, disarmed: map[int]bool{}, mixed: map[int]bool{}, lostCp: map[int]bool{}}
+	return &sut{baseIdx: -1, s: s, base: base, snapAt: map[int]int{}, snapView: map[int]string{}, revWr: map[int]bool{}, disarmed: map[int]bool{}, mixed: map[int]bool{}, lostCp: map[int]bool{}}
 }
 
 func cloneMap(m map[int]bool) map[int]bool {
@@ -391,13 +393,14 @@ type commitRec struct {
 type hist struct {
 	run       *hx.Run
 	db        state.Database
-	cur, oth  *sut
+	cur       *sut
+	alts      []*sut // the other live StateDBs over the same state.Database (copies and instances opened at a committed root), at most 2
 	committed []commitRec
 	classes   map[common.Hash]int
 	acts      []string // executed actions (the case input)
 	obs       []string // observations (the case output)
 	live      []int    // generator's view of live snapshot ids of cur (ascending)
-	liveOth   []int
+	liveAlts  [][]int
 	done      bool // a panic or a judgement ended the history
 	kind      string
 	nFind     int
@@ -414,6 +417,14 @@ func newHist(run *hx.Run, kind string) *hist {
 		panic(err)
 	}
 	return &hist{run: run, db: db, cur: newSut(s, common.Hash{}), classes: map[common.Hash]int{}, kind: kind}
+}
+
+func (h *hist) pushAlt(o *sut) {
+	if len(h.alts) >= 2 {
+		h.alts, h.liveAlts = h.alts[1:], h.liveAlts[1:]
+	}
+	h.alts = append(h.alts, o)
+	h.liveAlts = append(h.liveAlts, nil)
 }
 
 func (h *hist) class(r common.Hash) string {
@@ -508,6 +519,9 @@ func (h *hist) classifyLeaf(u *sut) (kind, sig string) {
 			nF2++ // F2: live cached object without callback, outside the dirty set, after a reverted armed touch
 		case present && deleted && !suicided && leafEmpty && u.mixed[i] && !u.s.Exist(addr(i)):
 			nF3++ // F3: tombstone of an account deleted as empty, re-inserted by Finalise/Commit(false)
+		case u.mixed[i]:
+			nF3++ // F3 aftermath: the re-inserted account was resurrected by a reverted re-creation (tombstone dropped); its leaf may
+			// carry a storage root whose nodes were never written, so the getters read empty storage
 		default:
 			return "", ""
 		}
@@ -586,15 +600,29 @@ func (h *hist) do(act string) bool {
 					o.lostCp[x] = true
 				}
 			}
-			h.oth = o
-			h.liveOth = nil
+			h.pushAlt(o)
 			return "ok"
-		case "sw":
-			if h.oth == nil {
+		case "on": // open ANOTHER instance at committed root k through the same state.Database; the current one stays current
+			k := atoi(f[1])
+			if k >= len(h.committed) {
+				panic("no such commit")
+			}
+			s, err := state.New(h.committed[k].root, h.db)
+			if err != nil {
+				return "err"
+			}
+			o := newSut(s, h.committed[k].root)
+			o.baseIdx, o.pristine = k, !h.committed[k].stale
+			h.pushAlt(o)
+			return "ok"
+		case "sw": // rotate: the current instance goes to the back, the oldest alternative becomes current
+			if len(h.alts) == 0 {
 				return "ok"
 			}
-			h.cur, h.oth = h.oth, h.cur
-			h.live, h.liveOth = h.liveOth, h.live
+			front, fl := h.alts[0], h.liveAlts[0]
+			h.alts = append(h.alts[1:], h.cur)
+			h.liveAlts = append(h.liveAlts[1:], h.live)
+			h.cur, h.live = front, fl
 			u = h.cur
 			return "ok"
 		case "ro", "rs":
@@ -608,12 +636,14 @@ func (h *hist) do(act string) bool {
 					return "err"
 				}
 				n := newSut(s, h.committed[k].root)
+				n.baseIdx, n.pristine = k, !h.committed[k].stale
 				h.cur = n
 			} else {
 				if err := u.s.Reset(h.committed[k].root); err != nil {
 					return "err"
 				}
 				n := newSut(u.s, h.committed[k].root)
+				n.baseIdx, n.pristine = k, !h.committed[k].stale
 				h.cur = n
 			}
 			u = h.cur
@@ -726,19 +756,34 @@ func (h *hist) do(act string) bool {
 			}
 			u.cmPend = false
 			u.surv = append(u.surv, so)
+			if isWrite(f[0]) {
+				u.pristine = false
+			}
 		}
-		if f[0] == "cp" {
-			h.oth.lastView = ""
+		if f[0] == "cp" || f[0] == "on" {
+			h.alts[len(h.alts)-1].lastView = ""
 		}
 		u.lastView = ""
 		return true
 	}
 	view := dumpView(u.s, &bad)
 	ob := ret + "/" + view + ";" + dumpInternal(u.s)
+	if f[0] == "on" {
+		nw := h.alts[len(h.alts)-1]
+		cv := dumpView(nw.s, &bad)
+		extra = "/" + cv + ";" + dumpInternal(nw.s)
+		nw.lastView = cv
+		if nw.pristine && acctsOf(cv) != h.committed[nw.baseIdx].accts {
+			h.obs = append(h.obs, ob+extra)
+			h.violate("reopen-differs", "reopen-differs", fmt.Sprintf("second instance opened at commit %d reads %s, committed view was %s", nw.baseIdx, acctsOf(cv), h.committed[nw.baseIdx].accts))
+			return false
+		}
+	}
 	if f[0] == "cp" {
-		cv := dumpView(h.oth.s, &bad)
-		extra = "/" + cv + ";" + dumpInternal(h.oth.s)
-		h.oth.lastView = cv
+		nw := h.alts[len(h.alts)-1]
+		cv := dumpView(nw.s, &bad)
+		extra = "/" + cv + ";" + dumpInternal(nw.s)
+		nw.lastView = cv
 		if cv != view && !u.stale {
 			// a cached object that Copy drops is re-read from a trie leaf whose storage trie may only have been hashed, never
 			// written to the node database (the model abstracts tries to maps): this observation is not part of the case
@@ -855,6 +900,26 @@ func (h *hist) do(act string) bool {
 		}
 		u.cmPend = false
 		u.surv = append(u.surv, so)
+		if isWrite(f[0]) {
+			u.pristine = false
+		}
+	}
+	// J7: an instance opened at a committed root on which no mutator was ever called still reads exactly that content and,
+	// when asked, returns exactly that root — whatever other instances over the same state.Database did meanwhile
+	if u.pristine && u.baseIdx >= 0 && u.baseIdx < len(h.committed) {
+		h.run.Count("judged:J7-untouched-instance")
+		c := h.committed[u.baseIdx]
+		if acctsOf(view) != c.accts {
+			h.violate("reopened-instance-changed", "reopened-instance-changed:view", fmt.Sprintf("%s: an instance opened at commit %d and never modified reads %s, the committed content is %s", act, u.baseIdx, acctsOf(view), c.accts))
+			return false
+		}
+		if isRoot && rootHash != c.root {
+			h.violate("reopened-instance-changed", "reopened-instance-changed:root", fmt.Sprintf("%s on an instance opened at commit %d and never modified returned %x, the committed root is %x", act, u.baseIdx, rootHash, c.root))
+			return false
+		}
+	}
+	if f[0] == "cm" {
+		u.pristine = false
 	}
 	if isRoot && !u.stale {
 		h.run.Count("judged:J2-root")
@@ -1193,8 +1258,10 @@ func (h *hist) generate(r *hx.Rng, g genCfg) {
 				h.do("ne")
 			case c < 33:
 				h.do("cp")
-			case c < 36 && h.oth != nil:
+			case c < 36 && len(h.alts) > 0:
 				h.do("sw")
+			case c < 39 && len(h.committed) > 0:
+				h.do(fmt.Sprintf("on:%d", len(h.committed)-1-r.Intn(1+r.Intn(len(h.committed)))%len(h.committed)))
 			default:
 				h.do(h.mutator(r, g))
 			}
@@ -1238,7 +1305,16 @@ func directed(r *hx.Rng, i int) []string {
 	x := 1 + r.Intn(nAddr)
 	y := 1 + (x % nAddr)
 	d := "1"
-	switch i % 14 {
+	switch i % 17 {
+	case 14: // two instances over ONE state.Database opened at the same committed root before either is finalised
+		return []string{fmt.Sprintf("bl:%d:50", x), fmt.Sprintf("st:%d:0:5", x), fmt.Sprintf("ab:%d:0", y), "cm:0", "ro:0", "on:0",
+			fmt.Sprintf("bl:%d:70", x), fmt.Sprintf("no:%d:3", y), []string{"rt:1", "fi:1", "cm:1"}[r.Intn(3)], "sw", "rt:1", "dm", "sw", "dm"}
+	case 15: // three instances (New, New, Reset) interleaved
+		return []string{fmt.Sprintf("bl:%d:50", x), fmt.Sprintf("no:%d:2", y), "cm:1", "ro:0", "on:0", "on:0", fmt.Sprintf("st:%d:0:9", x), "fi:1",
+			"sw", "rs:0", fmt.Sprintf("ab:%d:4", y), "sw", "rt:0", "sw", "cm:1", "sw", "rt:1", "sw", "dm", "sw", "dm"}
+	case 16: // storage tries: two accounts with identical storage (same storage root), two instances writing different ones
+		return []string{fmt.Sprintf("st:%d:0:5", x), fmt.Sprintf("st:%d:1:6", x), fmt.Sprintf("no:%d:1", x), fmt.Sprintf("st:%d:0:5", y), fmt.Sprintf("st:%d:1:6", y),
+			fmt.Sprintf("no:%d:1", y), "cm:1", "ro:0", "on:0", fmt.Sprintf("st:%d:0:9", x), "rt:1", "sw", fmt.Sprintf("st:%d:1:0", y), "cp", "rt:1", "sw", "dm", "sw", "dm", "sw", "cm:1"}
 	case 12: // cold storage: slots that live only in the committed trie are written and reverted without being read first
 		return []string{fmt.Sprintf("no:%d:1", x), fmt.Sprintf("st:%d:0:17", x), fmt.Sprintf("st:%d:2:51", x), "cm:1", []string{"ro:0", "rs:0"}[r.Intn(2)],
 			"sn", fmt.Sprintf("st:%d:0:9", x), "sn", fmt.Sprintf("st:%d:2:0", x), fmt.Sprintf("st:%d:1:4", x), "rv:1", "rv:0", "rt:1", "cm:1", "ro:1"}
@@ -1257,6 +1333,9 @@ func directed(r *hx.Rng, i int) []string {
 	case 4: // suicide, finalise, re-create in the next transaction, revert
 		return []string{fmt.Sprintf("bl:%d:100", x), fmt.Sprintf("co:%d:60ff", x), "cm:1", "rs:0", fmt.Sprintf("sd:%d", x), "fi:1", "sn", fmt.Sprintf("ab:%d:3", x), fmt.Sprintf("st:%d:2:9", x), "rv:0", "rt:1", "sn", fmt.Sprintf("ca:%d", x), "rv:1", "cm:1", "ro:1"}
 	case 5: // touch of the RIPEMD address is not undone (journal.go special case)
+		if r.Bool() { // F4: the reverted touch of 0x03 still deletes it
+			return []string{"ab:3:0", "cm:0", "ro:0", "sn", "ab:3:0", "rv:0", "rt:1"}
+		}
 		return []string{"ab:3:0", "cm:0", "ro:0", "sn", "ab:3:0", "rv:0", "ab:3:4", "rt:1", "sn", "ab:3:0", "rv:1", "cm:1", "ro:1"}
 	case 6: // storage set / clear / revert / commit / reopen
 		return []string{fmt.Sprintf("no:%d:1", x), fmt.Sprintf("st:%d:0:5", x), fmt.Sprintf("st:%d:1:6", x), "cm:1", "ro:0", "sn", fmt.Sprintf("st:%d:0:0", x), "sn", fmt.Sprintf("st:%d:1:9", x), "rv:1", "rt:1", fmt.Sprintf("st:%d:1:0", x), "cm:1", "ro:1"}
@@ -1301,14 +1380,14 @@ func main() {
 		return
 	}
 
-	nDirected, nRandom, maxActs := 240, 1800, 60
+	nDirected, nRandom, maxActs := 272, 1800, 60
 	if run.Thorough() {
 		nDirected, nRandom, maxActs = 2400, 60000, 80
 	}
 	dr := rng.Fork(1)
 	for i := 0; i < nDirected; i++ {
 		h := newHist(run, "directed")
-		if (i/14)%2 == 1 {
+		if (i/17)%2 == 1 {
 			h.kind = "directed+cold"
 			h.do("q")
 		}
